@@ -241,3 +241,21 @@ def _(cv, img_left):
         + (1 if binary_dilation_msk(img_left, cv.attrs["window_size"])[y, x] else 0)
         + (64 if masked_px(img_left["msk"].data, img_left.attrs["no_data_mask"], img_left.attrs["valid_pixels"], y, x) == 1 else 0)
         for y in range(cv["validity_mask"].data.shape[0]) for x in range(cv["validity_mask"].data.shape[1])))
+
+
+# the function itself (call sites keep the assumed form above, of which they only use the shape): the dilation of the no-data pixels of
+# THIS image by the window -- a pixel is set iff a no-data pixel lies in the window centred on it (C04: bit 0 / border-or-nodata cause)
+@contract("pandora.criteria.binary_dilation_msk", props=["C04"])
+def _(img, window_size):
+    types(img={"vars": {"msk": "i16[:,:]"}, "attrs": {"no_data_mask": "int", "valid_pixels": "int"}}, window_size="int", result="bool[:,:]")
+    option(standalone=True, no_fuzz=True)
+    requires("odd_window", window_size >= 1, window_size % 2 == 1)
+    assigns()
+    raises_never()
+    ensures("shape", result.shape[0] == img["msk"].data.shape[0] and result.shape[1] == img["msk"].data.shape[1])
+    ensures("window_holds_nodata", all(
+        result[y, x] == any(img["msk"].data[p, q] == img.attrs["no_data_mask"]
+                            for p in range(y - window_size // 2, y + window_size // 2 + 1)
+                            for q in range(x - window_size // 2, x + window_size // 2 + 1)
+                            if 0 <= p and p < img["msk"].data.shape[0] and 0 <= q and q < img["msk"].data.shape[1])
+        for y in range(img["msk"].data.shape[0]) for x in range(img["msk"].data.shape[1])))
